@@ -94,6 +94,7 @@ def run(rep, tier):
         zero(rep, meta, sfx)
         arith(rep, meta, sfx)
         visited(rep, meta, sfx)
+        unroll_phase(rep, meta, sfx)
 
 
 def scope(meta):
@@ -367,6 +368,40 @@ def visited(rep, meta, sfx):
             return self.t
     c06.locate(meta)
     c06.trace(R(r), meta, "")
+    # memoised rule-following recursions in the optimizer: every computed answer is stored and nothing is
+    # evicted, otherwise the cost is the number of paths through the rule graph, not its size
+    for fn in meta.bodies:
+        if not fn["path"].startswith("pest_meta::optimizer::") or fn.get("exp"):
+            continue
+        caches = [p for p in fn["params"] if p.get("k") == "PBind" and "HashMap<alloc::string::String, core::option::Option<bool>>" in p.get("ty", "")]
+        if not caches or not any(callee(n) == fn["path"] for n in walk(fn["body"])):
+            continue
+        cid = caches[0]["id"]
+        ctx = hirq.Ctx(fn)
+        key = "memo:" + fn["path"].split("::")[-1]
+        r.instance(key, where(fn["body"]))
+        removes = [n for n in walk(fn["body"]) if kind(n) == "MethodCall" and n["m"] in ("remove", "clear", "retain") and hirq.local_id(n["recv"]) == cid]
+        if removes:
+            r.violation(key + ":evicts", where(removes[0]), "the memo table of %s evicts entries: a rule whose answer was "
+                        "dropped is re-expanded at every reference, so the optimizer takes time exponential in the depth "
+                        "of shared rule references (not bounded time)" % fn["name"])
+        rec = [n for n in walk(fn["body"]) if kind(n) == "Call" and callee(n) == fn["path"]]
+        for rc in rec:
+            # after the recursive call (same block), an unconditional insert of the result
+            blk = None
+            for (p, k, i) in ctx.ancestors(rc):
+                if kind(p) == "Block" and k == "stmts":
+                    blk, idx = p, i
+                    break
+            ok = False
+            if blk is not None:
+                for st in blk["stmts"][idx + 1:]:
+                    e = st.get("e")
+                    if st.get("k") in ("Semi", "Expr") and kind(e) == "MethodCall" and e["m"] == "insert" and hirq.local_id(e["recv"]) == cid:
+                        ok = True
+            if not ok:
+                r.violation(key + ":store", where(rc), "the answer computed by the recursive call is not stored "
+                            "unconditionally in the memo table")
     # rule-following recursions in the optimizer (post-validation): listed as evidence
     for fn in meta.bodies:
         if fn["path"].startswith("pest_meta::optimizer::") and not fn.get("exp"):
@@ -377,3 +412,13 @@ def visited(rep, meta, sfx):
                                 and "cache" in hirq.expr_text(n["recv"]) for n in walk(fn["body"]))
                 r.note("%s follows rule references recursively; visited/cache guard: %s (runs only after "
                        "validation rejected reference cycles in choice/leftmost position)" % (fn["path"], has_cache))
+
+
+def unroll_phase(rep, meta, sfx):
+    """The conversion to OptimizedExpr panics (unreachable!) on the variants the unroller is supposed to have
+    removed; totality therefore needs the writer/reader agreement of C05.UNROLL (shared rule)."""
+    from . import c05
+    before = len(rep.rules)
+    c05.unroll(rep, meta, sfx)
+    for rr in rep.rules[before:]:
+        rr.name = "C09.UNROLL" + sfx
